@@ -223,7 +223,7 @@ def qLog (r : Rule) : Log :=
 def qS (r : Rule) : S1 :=
   { world := ({ stamp := some 0 } : World).apply (.poke 3 "q" (.list [.int 7])), log := qLog r }
 def qH : List Op :=
-  [.w (.append 3 "q" (.int 1)), .w (.push 3 (.map [("q", .int 5)])), .w (.push 3 (.other .none)), .ctl .start,
+  [.w (.append 3 "q" (.int 1)), .w (.push 3 (.map [("q", .int 5)])), .w (.push 3 (.other (.atom .none))), .ctl .start,
    .w (.append 3 "q" (.int 2)), .w (.push 3 (.map [("p", .int 6)])), .w (.advance 1), .ctl .run,
    .w (.append 3 "q" (.int 3)), .ctl .stop, .w (.append 3 "q" (.int 4))]
 example : Fresh (qS .streak) ∧ proto .stopped qH = true ∧ noOverwrite 3 "q" qH = true := by
